@@ -52,6 +52,18 @@ def _collect_functions(store):
     return prof
 
 
+def _proc_main(job, conn, scratch):
+    try:
+        _worker_init(scratch)
+        r = _worker(job)
+    except BaseException as e:      # never leave the parent without an answer
+        r = {'config': job[1]['name'], 'error': '%s: %s' % (type(e).__name__, e)}
+    try:
+        conn.send(r)
+    finally:
+        conn.close()
+
+
 def _worker(job):
     modname, cfg, seeds, stop_after = job
     t0 = time.time()
@@ -165,31 +177,63 @@ def run_property(modname, tier, seed=0, nproc=None, only=None):
     errors = []
     try:
         ctx = mp.get_context('fork')
-        pool = ctx.Pool(nproc, initializer=_worker_init, initargs=(scratch,), maxtasksperchild=None)
-        outstanding = []
         by_name = {c['name']: c for c in cfgs}
-        # big configurations first
-        order = sorted(cfgs, key=lambda c: -c.get('weight', 1))
-        for c in order:
-            stop = c.get('split')
-            outstanding.append(pool.apply_async(_worker, ((modname, c, None, stop),)))
         known = load_known()
         budget = float(os.environ.get('VERIF_BUDGET_S', '1800' if tier == 'quick' else '7200'))
+        task_timeout = float(os.environ.get('VERIF_TASK_TIMEOUT_S', '420' if tier == 'quick' else '2400'))
         stopped = None
-        while outstanding:
-            nxt = []
-            for ar in outstanding:
-                if not ar.ready():
-                    nxt.append(ar)
+        # one (killable) process per task: a task that exceeds its time limit -- z3 does not honour its timeout
+        # everywhere, and mutated code may not terminate -- is killed and retried once, then reported
+        queue = []            # (job, attempt)
+        for c in sorted(cfgs, key=lambda c: -c.get('weight', 1)):       # big configurations first
+            queue.append(((modname, c, None, c.get('split')), 0))
+        running = []          # [proc, conn, job, attempt, t_start]
+        while queue or running:
+            while queue and len(running) < nproc:
+                job, attempt = queue.pop(0)
+                pconn, cconn = ctx.Pipe(duplex=False)
+                pr = ctx.Process(target=_proc_main, args=(job, cconn, scratch))
+                pr.daemon = True
+                pr.start()
+                cconn.close()
+                running.append([pr, pconn, job, attempt, time.time()])
+            still = []
+            for ent in running:
+                pr, conn, job, attempt, ts = ent
+                r = None
+                if conn.poll():
+                    try:
+                        r = conn.recv()
+                    except EOFError:
+                        r = {'config': job[1]['name'], 'error': 'worker died without a result'}
+                    pr.join(5)
+                elif not pr.is_alive():
+                    r = {'config': job[1]['name'], 'error': 'worker exited with code %s without a result' % pr.exitcode}
+                elif time.time() - ts > task_timeout:
+                    pr.kill()
+                    pr.join(5)
+                    if attempt == 0:
+                        queue.append((job, 1))
+                        try:
+                            conn.close()
+                        except OSError:
+                            pass
+                        continue
+                    r = {'config': job[1]['name'], 'error': 'TaskTimeout: task exceeded %ds twice' % task_timeout}
+                if r is None:
+                    still.append(ent)
                     continue
-                r = ar.get()
+                try:
+                    conn.close()
+                except OSError:
+                    pass
                 results[r['config']].append(r)
                 if r.get('error'):
                     errors.append((r['config'], r['error']))
                     continue
                 # fail fast: a reproduced violation that is not a listed known finding decides the run
                 for c in r.get('candidates', []):
-                    if c.get('reproduced') and not c.get('tentative_known'):
+                    if c.get('reproduced'):
                         key = '%s|%s' % (c['config'], c['check'])
                         if not any(f['property'] == pid and fnmatch.fnmatch(key, f['key']) for f in known.get('findings', [])):
                             stopped = stopped or 'violation found in %s: remaining work cancelled (fail fast)' % c['config']
@@ -197,22 +241,22 @@ def run_property(modname, tier, seed=0, nproc=None, only=None):
                 if pend:
                     cfg = by_name[r['config']]
                     pend.sort(key=len)
-                    chunk = max(1, len(pend) // (nproc * 8))
-                    for i in range(0, len(pend), chunk):
-                        nxt.append(pool.apply_async(_worker, ((modname, cfg, pend[i:i + chunk], None),)))
-            outstanding = nxt
+                    chunk = max(1, len(pend) // (nproc * 3))
+                    for k in range(0, len(pend), chunk):
+                        queue.append(((modname, cfg, pend[k:k + chunk], None), 0))
+            running = still
             if stopped is None and time.time() - t0 > budget:
                 stopped = 'wall-clock budget of %ds exceeded: remaining work cancelled' % budget
                 errors.append(('*', 'TimeBudget: ' + stopped))
             if stopped is not None and os.environ.get('VERIF_FAILFAST', '1') != '0':
-                pool.terminate()
-                outstanding = []
+                for pr, conn, job, attempt, ts in running:
+                    pr.kill()
+                for pr, conn, job, attempt, ts in running:
+                    pr.join(5)
+                running, queue = [], []
                 break
-            if outstanding:
-                time.sleep(0.05)
-        if stopped is None:
-            pool.close()
-        pool.join()
+            if running:
+                time.sleep(0.02)
     finally:
         shutil.rmtree(scratch, ignore_errors=True)
 
